@@ -28,6 +28,23 @@ class JoinV:
         self.elem, self.sep = elem, sep
 
 
+class PartMat(Mat):
+    """a view of part of a matrix (one column / row of a matrix that has several)"""
+    __slots__ = ("why",)
+
+    def __init__(self, p, shape, why):
+        Mat.__init__(self, p, shape)
+        self.why = why
+
+
+class MatIter(IterV):
+    """iterator over the elements of a matrix; `partial` says why it does not cover all of them (None = all elements)"""
+
+    def __init__(self, items, mat, partial):
+        IterV.__init__(self, items)
+        self.mat, self.partial = mat, partial
+
+
 class FmtInterp(Interp):
     """interpreter whose formatter argument is an output buffer of tokens"""
 
@@ -75,6 +92,39 @@ class FmtInterp(Interp):
 
     def leaf_call(self, name, path, ipath, c, args, e):
         a0 = unref(args[0]) if args else None
+        # ---- which elements of a matrix an iterator covers
+        if isinstance(a0, Mat) and not isinstance(a0, PartMat):
+            if name in ("nrows", "ncols") and len(args) == 1:
+                return DimV(a0.shape[0 if name == "nrows" else 1])
+            if name == "len" and len(args) == 1:
+                return DimV("%s*%s" % a0.shape)
+            if name in ("column", "row") and len(args) == 2:
+                other = a0.shape[0] if name == "row" else a0.shape[1]
+                if other == "1":
+                    return a0                # the only column / row of a vector: all of it
+                return PartMat(a0.p, (a0.shape[0], "1") if name == "column" else ("1", a0.shape[1]), "%s(..) of a %sx%s matrix" % ((name,) + a0.shape))
+            if name in ("iter", "into_iter") and len(args) == 1:
+                return MatIter([Sc(a0.p)], a0, None)
+        if isinstance(a0, PartMat) and name in ("iter", "into_iter") and len(args) == 1:
+            return MatIter([Sc(a0.p)], a0, a0.why)
+        if isinstance(a0, MatIter):
+            if name == "take" and len(args) == 2:
+                k = unref(args[1])
+                m = a0.mat
+                full = isinstance(k, DimV) and (k.name == "%s*%s" % m.shape or (k.name == m.shape[0] and m.shape[1] == "1") or
+                                                (k.name == m.shape[1] and m.shape[0] == "1"))
+                return MatIter(a0.items, m, a0.partial if full else "take(%s) of the %sx%s elements" % ((getattr(k, "name", "?"),) + m.shape))
+            if name in ("skip", "step_by", "filter", "skip_while", "take_while"):
+                return MatIter(a0.items, a0.mat, "%s(..) drops elements" % name)
+            if name == "map" and len(args) == 2:
+                return MatIter([self.call_closure(unref(args[1]), [x], e) for x in a0.items], a0.mat, a0.partial)
+            if name in ("copied", "cloned", "rev") and len(args) == 1:
+                return a0
+            if name == "collect":
+                t = Tup(a0.items)
+                if a0.partial:
+                    t = Tup([StrV("NOT-ALL-ELEMENTS(%s):" % a0.partial + (unref(x).s if isinstance(unref(x), StrV) else repr(unref(x)))) for x in a0.items])
+                return t
         if isinstance(a0, IterV):
             if name == "map" and len(args) == 2:
                 return IterV([self.call_closure(unref(args[1]), [x], e) for x in a0.items])
